@@ -6,7 +6,8 @@
                            configuration (unbounded: all digit strings, all admissible separators)
    3. *_seps               every stage after the lexer is insensitive to cf_dsep / cf_tsep
    4. examples             non-vacuity at binary64 through the whole model *)
-From SC.Model Require Import Base Num Types Config Case Chrono Parser Items Interp RuleFns Rules Format Lexer Api.
+From SC.Model Require Import Base Num FloatIO Types Config Case Chrono UiTokens Post Parser Items Interp RuleFns Rules Format
+     Lexer Api.
 From Coq Require Import ZArith Lia.
 
 (* ------------------------------------------------------------------------------------- *)
@@ -46,11 +47,11 @@ Definition free (a : N) (x : str) : Prop := Forall (fun c => c <> a) x.
 Lemma subst1_free a to x : free a x -> subst1 a to x = x.
 Proof.
   induction 1 as [|c r Hc _ IH]; [reflexivity|].
-  cbn. destruct (N.eqb_spec a c); [congruence|]. cbn. now rewrite IH.
+  unfold subst1 in *. cbn [flat_map]. destruct (N.eqb_spec a c); [congruence|]. rewrite IH. reflexivity.
 Qed.
 
 Lemma subst1_hit a to : subst1 a to [a] = to.
-Proof. cbn. rewrite N.eqb_refl. apply app_nil_r. Qed.
+Proof. unfold subst1. cbn [flat_map]. rewrite N.eqb_refl. apply app_nil_r. Qed.
 
 Lemma free_app a x y : free a x -> free a y -> free a (x ++ y).
 Proof. intros; apply Forall_app; split; assumption. Qed.
@@ -196,15 +197,14 @@ Proof.
 Qed.
 
 (* digit strings and non-digit separators *)
-Definition is_digit (c : N) : bool := (48 <=? c)%N && (c <=? 57)%N.
-Definition digits (x : str) : Prop := Forall (fun c => is_digit c = true) x.
-Definition nondigit (x : str) : Prop := Forall (fun c => is_digit c = false) x.
+Definition digits (x : str) : Prop := Forall (fun c => FloatIO.is_digit c = true) x.
+Definition nondigit (x : str) : Prop := Forall (fun c => FloatIO.is_digit c = false) x.
 
 Lemma digits_avoid dsep tsep x :
   nondigit dsep -> nondigit tsep -> digits x -> avoids dsep tsep x.
 Proof.
   intros Hd Ht Hx c Hc. apply in_app_or in Hc.
-  assert (Hn : is_digit c = false).
+  assert (Hn : FloatIO.is_digit c = false).
   { destruct Hc as [Hc|Hc]; [eapply Forall_forall in Hd|eapply Forall_forall in Ht]; eauto. }
   eapply Forall_impl; [|exact Hx]. cbn. intros a Ha E. subst. congruence.
 Qed.
@@ -283,3 +283,336 @@ Proof.
 Qed.
 
 End WithNum.
+
+(* ------------------------------------------------------------------------------------- *)
+(* 3. the stages after the lexer do not read the separators                               *)
+(* ------------------------------------------------------------------------------------- *)
+Section Seps.
+Context {F : Type} {NF : Num F}.
+
+(* two configurations that differ at most in the two separators *)
+Definition same_but_seps (c c' : config F) : Prop :=
+  exists d t, c' = set_fmt c (cf_money c) (cf_number c) (cf_percent c) d t (cf_tz c).
+
+Lemma same_but_seps_refl c : same_but_seps c c.
+Proof. exists (cf_dsep c), (cf_tsep c). destruct c; reflexivity. Qed.
+
+Lemma same_but_seps_sym c c' : same_but_seps c c' -> same_but_seps c' c.
+Proof. intros (d & t & ->). exists (cf_dsep c), (cf_tsep c). destruct c; reflexivity. Qed.
+
+Lemma same_but_seps_trans c1 c2 c3 : same_but_seps c1 c2 -> same_but_seps c2 c3 -> same_but_seps c1 c3.
+Proof. intros (d & t & ->) (d' & t' & ->). exists d', t'. reflexivity. Qed.
+
+(* the API mutators of the separators produce such configurations *)
+Lemma same_but_seps_set c d t :
+  same_but_seps c (set_fmt c (cf_money c) (cf_number c) (cf_percent c) d t (cf_tz c)).
+Proof. exists d, t. reflexivity. Qed.
+
+Section Pair.
+Variables c c' : config F.
+Hypothesis H : same_but_seps c c'.
+
+Lemma sbs_currency : cf_currency c' = cf_currency c. Proof. destruct H as (d & t & ->). reflexivity. Qed.
+Lemma sbs_currency_alias : cf_currency_alias c' = cf_currency_alias c. Proof. destruct H as (d & t & ->). reflexivity. Qed.
+Lemma sbs_rates : cf_rates c' = cf_rates c. Proof. destruct H as (d & t & ->). reflexivity. Qed.
+Lemma sbs_timezones : cf_timezones c' = cf_timezones c. Proof. destruct H as (d & t & ->). reflexivity. Qed.
+Lemma sbs_word_group : cf_word_group c' = cf_word_group c. Proof. destruct H as (d & t & ->). reflexivity. Qed.
+Lemma sbs_constant_pair : cf_constant_pair c' = cf_constant_pair c. Proof. destruct H as (d & t & ->). reflexivity. Qed.
+Lemma sbs_rules : cf_rules c' = cf_rules c. Proof. destruct H as (d & t & ->). reflexivity. Qed.
+Lemma sbs_types : cf_types c' = cf_types c. Proof. destruct H as (d & t & ->). reflexivity. Qed.
+Lemma sbs_type_conv : cf_type_conv c' = cf_type_conv c. Proof. destruct H as (d & t & ->). reflexivity. Qed.
+Lemma sbs_months : cf_months c' = cf_months c. Proof. destruct H as (d & t & ->). reflexivity. Qed.
+Lemma sbs_format : cf_format c' = cf_format c. Proof. destruct H as (d & t & ->). reflexivity. Qed.
+Lemma sbs_type_group : cf_type_group c' = cf_type_group c. Proof. destruct H as (d & t & ->). reflexivity. Qed.
+Lemma sbs_money : cf_money c' = cf_money c. Proof. destruct H as (d & t & ->). reflexivity. Qed.
+Lemma sbs_number : cf_number c' = cf_number c. Proof. destruct H as (d & t & ->). reflexivity. Qed.
+Lemma sbs_percent : cf_percent c' = cf_percent c. Proof. destruct H as (d & t & ->). reflexivity. Qed.
+Lemma sbs_tz : cf_tz c' = cf_tz c. Proof. destruct H as (d & t & ->). reflexivity. Qed.
+
+Ltac projs :=
+  rewrite ?sbs_currency, ?sbs_currency_alias, ?sbs_rates, ?sbs_timezones, ?sbs_word_group, ?sbs_constant_pair,
+          ?sbs_rules, ?sbs_types, ?sbs_type_conv, ?sbs_months, ?sbs_format, ?sbs_type_group, ?sbs_money,
+          ?sbs_number, ?sbs_percent, ?sbs_tz.
+
+(* functions that only look fields up *)
+Lemma rate_of_seps code : rate_of c' code = rate_of c code.
+Proof. unfold rate_of. projs. reflexivity. Qed.
+
+Lemma convert_currency_seps sc lp lc : convert_currency c' sc lp lc = convert_currency c sc lp lc.
+Proof. unfold convert_currency. rewrite !rate_of_seps. reflexivity. Qed.
+
+Lemma unit_of_seps u : unit_of c' u = unit_of c u.
+Proof. unfold unit_of. projs. reflexivity. Qed.
+
+Lemma read_currency_seps name : read_currency c' name = read_currency c name.
+Proof. unfold read_currency. projs. reflexivity. Qed.
+
+Lemma get_currency_seps vs k fs : get_currency c' vs k fs = get_currency c vs k fs.
+Proof. unfold get_currency. destruct (field_token vs k fs) as [[]|]; try reflexivity. apply read_currency_seps. Qed.
+
+Lemma get_time_offset_seps : get_time_offset c' = get_time_offset c.
+Proof. unfold get_time_offset. projs. reflexivity. Qed.
+
+Lemma constant_of_seps lang w : constant_of c' lang w = constant_of c lang w.
+Proof. unfold constant_of, lang_constants. projs. reflexivity. Qed.
+
+Lemma lang_rules_seps lang : lang_rules c' lang = lang_rules c lang.
+Proof. unfold lang_rules. projs. reflexivity. Qed.
+
+Lemma all_units_seps : all_units c' = all_units c.
+Proof. unfold all_units. projs. reflexivity. Qed.
+
+Lemma api_call_seps r fs : api_call c' r fs = api_call c r fs.
+Proof. unfold api_call. projs. reflexivity. Qed.
+
+(* ---- stages that call basic_execute: parametric in an insensitive [bexec] ---- *)
+Variable bexec : config F -> str -> res (option F).
+Hypothesis Hb : forall code, bexec c' code = bexec c code.
+
+Lemma unit_loop_seps fuel group up ti number next si :
+  unit_loop bexec fuel c' group up ti number next si = unit_loop bexec fuel c group up ti number next si.
+Proof.
+  revert number next si; induction fuel as [|f IH]; intros; [reflexivity|].
+  cbn [unit_loop]. rewrite Hb.
+  destruct (bexec c _) as [[n'|]|]; cbn [bind]; try reflexivity.
+  destruct (nassoc _ group) as [nx|]; try reflexivity.
+  destruct (N.eqb _ ti); try reflexivity.
+  destruct (negb up && (si =? 0)); try reflexivity.
+  apply IH.
+Qed.
+
+Lemma calculate_unit_seps number src tgt group :
+  calculate_unit bexec c' number src tgt group = calculate_unit bexec c number src tgt group.
+Proof.
+  unfold calculate_unit. destruct (N.eqb _ _); [reflexivity|].
+  destruct (nassoc _ group); [|reflexivity]. apply unit_loop_seps.
+Qed.
+
+Lemma dyn_convert_seps number src target :
+  dyn_convert bexec c' number src target = dyn_convert bexec c number src target.
+Proof.
+  unfold dyn_convert. projs.
+  destruct (assoc (dt_group src) (cf_types c)) as [group|]; [|reflexivity].
+  destruct (find_by_name target (map snd group)) as [tg|].
+  { destruct (N.eqb _ _); [reflexivity|]. rewrite calculate_unit_seps. reflexivity. }
+  destruct (find _ (cf_type_conv c)) as [tc|]; [|reflexivity].
+  destruct (if str_eqb (tc_src_name tc) (dt_group src) then _ else _) as [si ti].
+  destruct (nassoc si group) as [bridge|]; [|reflexivity].
+  rewrite calculate_unit_seps.
+  destruct (calculate_unit bexec c number src bridge group) as [[n1|]|]; cbn [bind]; try reflexivity.
+  rewrite Hb.
+  destruct (bexec c _) as [[n2|]|]; cbn [bind]; try reflexivity.
+  repeat match goal with
+         | |- ?x = ?x => reflexivity
+         | |- context [calculate_unit bexec c' ?a ?b ?d ?e] => rewrite (calculate_unit_seps a b d e)
+         | |- context [match ?e with _ => _ end] => destruct e
+         end.
+Qed.
+
+(* DataItem::calculate *)
+Theorem calculate_seps l r op : calculate bexec c' l r op = calculate bexec c l r op.
+Proof.
+  destruct l, r; try reflexivity; cbn [calculate].
+  - rewrite convert_currency_seps. reflexivity.
+  - rewrite !unit_of_seps.
+    destruct (unit_of c u) as [du|]; [|reflexivity].
+    destruct (unit_of c u0) as [du'|]; [|reflexivity].
+    destruct (dt_names du) as [|name0 ?]; [reflexivity|].
+    rewrite dyn_convert_seps. reflexivity.
+Qed.
+
+Lemma calculate_item_seps op l r : calculate_item bexec c' op l r = calculate_item bexec c op l r.
+Proof.
+  unfold calculate_item. destruct l; try reflexivity. destruct r; try reflexivity.
+  rewrite !calculate_seps. reflexivity.
+Qed.
+
+(* the interpreter: value AND the variables it stores *)
+Theorem execute_ast_seps a : forall vs, execute_ast bexec c' vs a = execute_ast bexec c vs a.
+Proof.
+  induction a as [| | | |l IHl op r IHr|op e IHe|name e IHe| |]; intros vs; try reflexivity.
+  - cbn [execute_ast]. rewrite IHl.
+    destruct (execute_ast bexec c vs l) as [[[cl|m] vs1]|]; cbn [bind]; try reflexivity.
+    rewrite IHr.
+    destruct (execute_ast bexec c vs1 r) as [[[cr|m] vs2]|]; cbn [bind]; try reflexivity.
+    destruct cl, cr; try reflexivity; rewrite calculate_item_seps; reflexivity.
+  - cbn [execute_ast]. rewrite IHe. reflexivity.
+  - cbn [execute_ast]. rewrite IHe. reflexivity.
+Qed.
+
+(* the rule functions *)
+Lemma money_or_number_seps vs k fs x : money_or_number c' vs k fs x = money_or_number c vs k fs x.
+Proof. unfold money_or_number. rewrite get_currency_seps. reflexivity. Qed.
+
+Theorem call_rule_seps yr lang vs fname fs :
+  call_rule bexec yr c' lang vs fname fs = call_rule bexec yr c lang vs fname fs.
+Proof.
+  unfold call_rule.
+  repeat match goal with |- (if ?b then _ else _) = _ => destruct b end; try reflexivity.
+  all: unfold from_unixtime, convert_money, number_on, number_of, number_off, duration_parse, as_duration,
+       find_total_from_percent, dynamic_type_convert, small_date.
+  all: repeat match goal with
+         | |- ?x = ?x => reflexivity
+         | |- context [get_time_offset c'] => rewrite get_time_offset_seps
+         | |- context [get_currency c' ?a ?b ?d] => rewrite (get_currency_seps a b d)
+         | |- context [rate_of c' ?a] => rewrite (rate_of_seps a)
+         | |- context [money_or_number c' ?a ?b ?d ?e] => rewrite (money_or_number_seps a b d e)
+         | |- context [constant_of c' ?a ?b] => rewrite (constant_of_seps a b)
+         | |- context [unit_of c' ?a] => rewrite (unit_of_seps a)
+         | |- context [dyn_convert bexec c' ?a ?b ?d] => rewrite (dyn_convert_seps a b d)
+         | |- context [match ?e with _ => _ end] => destruct e
+         end.
+Qed.
+
+(* ---- the rule loop and the unit recogniser (Rules.v) ---- *)
+Lemma rule_try_patterns_seps yr line lang vs r pats st :
+  rule_try_patterns bexec yr line c' lang vs r pats st = rule_try_patterns bexec yr line c lang vs r pats st.
+Proof.
+  induction pats as [|pat rest IH]; [reflexivity|].
+  cbn [rule_try_patterns].
+  destruct (find_match vs pat (ts_infos st)) as [m|]; cbn [bind]; [|reflexivity].
+  destruct (Nat.eqb _ _); [|exact IH].
+  destruct r as [fname ps|ps ar].
+  - rewrite call_rule_seps.
+    destruct (call_rule bexec yr c lang vs fname (fm_fields m)) as [[tok|]|]; cbn [bind]; try reflexivity.
+    exact IH.
+  - rewrite api_call_seps. destruct (api_call c ar (fm_fields m)); [reflexivity|exact IH].
+Qed.
+
+Lemma rule_sweep_seps yr line lang vs rules : forall st fired,
+  rule_sweep bexec yr line c' lang vs rules st fired = rule_sweep bexec yr line c lang vs rules st fired.
+Proof.
+  induction rules as [|r rest IH]; intros; [reflexivity|].
+  cbn [rule_sweep]. rewrite rule_try_patterns_seps.
+  destruct (rule_try_patterns bexec yr line c lang vs r (rule_patterns r) st) as [[st'|]|]; cbn [bind];
+    try reflexivity; apply IH.
+Qed.
+
+Lemma rule_loop_seps yr fuel line lang vs rules : forall st,
+  rule_loop bexec yr fuel line c' lang vs rules st = rule_loop bexec yr fuel line c lang vs rules st.
+Proof.
+  induction fuel as [|f IH]; intros; [reflexivity|].
+  cbn [rule_loop]. rewrite rule_sweep_seps.
+  destruct (rule_sweep bexec yr line c lang vs rules st false) as [[st' fired]|]; cbn [bind]; [|reflexivity].
+  destruct fired; [apply IH|reflexivity].
+Qed.
+
+Theorem rule_tokinizer_seps yr fuel line lang vs st :
+  rule_tokinizer bexec yr fuel line c' lang vs st = rule_tokinizer bexec yr fuel line c lang vs st.
+Proof.
+  unfold rule_tokinizer. rewrite lang_rules_seps.
+  destruct (lang_rules c lang); [apply rule_loop_seps|reflexivity].
+Qed.
+
+Theorem dyn_loop_seps fuel line vs : forall st, dyn_loop fuel line c' vs st = dyn_loop fuel line c vs st.
+Proof.
+  induction fuel as [|f IH]; intros; [reflexivity|].
+  cbn [dyn_loop]. rewrite all_units_seps.
+  destruct (dyn_sweep_units line vs (all_units c) st false) as [[st' fired]|]; cbn [bind]; [|reflexivity].
+  destruct fired; [apply IH|reflexivity].
+Qed.
+
+End Pair.
+End Seps.
+
+(* ---- the real basic_execute overrides the separators: it is insensitive itself ---- *)
+Section Real.
+Context {F : Type} {NF : Num F}.
+Variable lx : lexdata.
+Variable ck : clock.
+
+Theorem basic_execute_seps (c c' : config F) code :
+  same_but_seps c c' -> basic_execute lx ck c' code = basic_execute lx ck c code.
+Proof.
+  intros H. unfold basic_execute.
+  destruct (split_lines code []) as [|line [|]]; try reflexivity.
+  destruct line as [|ch0 rest]; [reflexivity|].
+  cbv zeta.
+  assert (E : set_fmt c' (cf_money c') (cf_number c') (cf_percent c') [46%N] [] (cf_tz c')
+              = set_fmt c (cf_money c) (cf_number c) (cf_percent c) [46%N] [] (cf_tz c)).
+  { destruct H as (d & t & ->). reflexivity. }
+  rewrite E.
+  destruct (regex_tokinizer lx (ck_today ck) _ (s "en") (ch0 :: rest) empty_state) as [st1|]; cbn [bind];
+    [|reflexivity].
+  destruct (alias_tokinizer lx (ck_today ck) _ (s "en") st1) as [st2|]; cbn [bind]; [|reflexivity].
+  destruct (ts_infos st2) as [|i0 infos]; [reflexivity|].
+  destruct (parse _ []) as [[a|m|] vs]; try reflexivity.
+  rewrite (execute_ast_seps c c' H no_bexec (fun _ => eq_refl)). reflexivity.
+Qed.
+
+(* the stages as they are composed in Api.tokinize / Api.execute_text *)
+Theorem calculate_real (c c' : config F) l r op :
+  same_but_seps c c' ->
+  calculate (basic_execute lx ck) c' l r op = calculate (basic_execute lx ck) c l r op.
+Proof. intro H. apply (calculate_seps c c' H). intro. now apply basic_execute_seps. Qed.
+
+Theorem execute_ast_real (c c' : config F) vs a :
+  same_but_seps c c' ->
+  execute_ast (basic_execute lx ck) c' vs a = execute_ast (basic_execute lx ck) c vs a.
+Proof. intro H. apply (execute_ast_seps c c' H). intro. now apply basic_execute_seps. Qed.
+
+Theorem call_rule_real (c c' : config F) lang vs fname fs :
+  same_but_seps c c' ->
+  call_rule (basic_execute lx ck) (ck_year ck) c' lang vs fname fs
+  = call_rule (basic_execute lx ck) (ck_year ck) c lang vs fname fs.
+Proof. intro H. apply (call_rule_seps c c' H). intro. now apply basic_execute_seps. Qed.
+
+Theorem rule_tokinizer_real (c c' : config F) fuel line lang vs st :
+  same_but_seps c c' ->
+  rule_tokinizer (basic_execute lx ck) (ck_year ck) fuel line c' lang vs st
+  = rule_tokinizer (basic_execute lx ck) (ck_year ck) fuel line c lang vs st.
+Proof. intro H. apply (rule_tokinizer_seps c c' H). intro. now apply basic_execute_seps. Qed.
+
+(* values stored in variables are items (asts), not text: several lines evaluated one after the
+   other, each seeing the variables left by the previous ones *)
+Fixpoint execute_lines (bexec : config F -> str -> res (option F)) (cfg : config F) (vs : vars F)
+         (lines : list (ast F)) : res (list ires * vars F) :=
+  match lines with
+  | [] => Ok ([], vs)
+  | a :: rest =>
+    do r <- execute_ast bexec cfg vs a;
+    do rs <- execute_lines bexec cfg (snd r) rest;
+    Ok (fst r :: fst rs, snd rs)
+  end.
+
+Theorem execute_lines_real (c c' : config F) lines : forall vs,
+  same_but_seps c c' ->
+  execute_lines (basic_execute lx ck) c' vs lines = execute_lines (basic_execute lx ck) c vs lines.
+Proof.
+  induction lines as [|a rest IH]; intros vs H; [reflexivity|].
+  cbn [execute_lines]. rewrite (execute_ast_real c c' vs a H).
+  destruct (execute_ast (basic_execute lx ck) c vs a) as [r|]; cbn [bind]; [|reflexivity].
+  rewrite (IH _ H). reflexivity.
+Qed.
+
+(* reading a variable returns the stored ast whatever the configuration is (any two configurations) *)
+Theorem variable_read_any_config bexec (c c' : config F) vs name :
+  execute_ast bexec c vs (AVariable name) = Ok (IOk (var_value vs name), vs) /\
+  execute_ast bexec c' vs (AVariable name) = execute_ast bexec c vs (AVariable name).
+Proof. split; reflexivity. Qed.
+
+(* an assignment stores the computed ast: the same one under both configurations *)
+Theorem assignment_stores_value (c c' : config F) vs name e v vs1 :
+  same_but_seps c c' ->
+  execute_ast (basic_execute lx ck) c vs e = Ok (IOk v, vs1) -> assoc name vs1 <> None ->
+  exists vs2 vs2',
+    execute_ast (basic_execute lx ck) c vs (AAssignment name e) = Ok (IOk v, vs2) /\
+    execute_ast (basic_execute lx ck) c' vs (AAssignment name e) = Ok (IOk v, vs2') /\
+    vs2 = vs2' /\ option_map (@v_data F) (assoc name vs2) = Some v.
+Proof.
+  intros H E Hn.
+  destruct (assoc name vs1) as [vi|] eqn:Ea; [|congruence].
+  exists (assoc_insert name {| v_tokens := v_tokens vi; v_data := v |} vs1),
+         (assoc_insert name {| v_tokens := v_tokens vi; v_data := v |} vs1).
+  rewrite (execute_ast_real c c' vs (AAssignment name e) H).
+  cbn [execute_ast]. rewrite E. cbn [bind]. rewrite Ea.
+  repeat split; try reflexivity.
+  clear E Ea Hn. induction vs1 as [|[k w] r IH]; cbn [assoc_insert assoc].
+  - rewrite str_eqb_refl. reflexivity.
+  - destruct (str_eqb name k) eqn:Ek.
+    + cbn [assoc]. rewrite str_eqb_refl. reflexivity.
+    + destruct (str_ltb name k); cbn [assoc]; [rewrite str_eqb_refl; reflexivity|].
+      rewrite Ek. exact IH.
+Qed.
+
+End Real.
